@@ -258,7 +258,7 @@ def run(ctx):
                 rule='full product shape x widths x model x s x lr 0..7 x '
                      'nu 1..4; full interior x- and b-bases for nu<=2 '
                      '(thorough: all nu); non-trivial = interior edges exist',
-                time_cap=ctx.budget or (150 if q else 1500))
+                time_cap=ctx.budget or (600 if q else 3000))
     cs = [{'n': n, 'kind': k, 'dom': d}
           for n in range(1, 15 if q else 41)
           for k in ('real', 'complex') for d in (8.0, 3.0)]
